@@ -244,6 +244,49 @@ def perturb(model, gen, amp=0.3):
                 mod.cache.invalidate()
 
 
+def gen(ctx):
+    """regenerate Gen/FlowTrain.lean: the order of the three tail operations of FlowModel.train (restore the best weights,
+    finalise, save the weights), read from the current source (statements after the epoch loop, top level or under
+    `if validate:`); theorem C08.train_tail_is_canonical is re-proved against it."""
+    import ast
+    from . import py2lean
+    try:
+        text = (core.REPO / "nessai" / "flowmodel" / "base.py").read_text()
+        fn = py2lean.find_function(ast.parse(text), "train", "FlowModel")
+        loops = [n for n in fn.body if isinstance(n, (ast.For, ast.While))]
+        if not loops:
+            raise py2lean.TranslationError("FlowModel.train: no epoch loop at top level")
+        tail = [st for st in fn.body if st.lineno > loops[-1].end_lineno]
+        ops = []
+
+        def visit(st):
+            if isinstance(st, ast.If):
+                for b in st.body + st.orelse:
+                    visit(b)
+                return
+            for n in ast.walk(st):
+                if isinstance(n, ast.Call):
+                    f = ast.unparse(n.func)
+                    if f == "self.model.load_state_dict":
+                        ops.append("restoreBest")
+                    elif f == "self.finalise":
+                        ops.append("finalise")
+                    elif f == "self.save_weights":
+                        ops.append("saveWeights")
+        for st in tail:
+            visit(st)
+        if not ops:
+            raise py2lean.TranslationError("FlowModel.train: none of load_state_dict / finalise / save_weights after the loop")
+    except (py2lean.TranslationError, SyntaxError, OSError) as e:
+        ctx.broken(f"translator: {e}", "Gen/FlowTrain.lean was left as it was")
+        return
+    body = ("import NessaiVerif.Model.FlowTrain\n/- GENERATED by harness/c08.py gen() from nessai/flowmodel/base.py (FlowModel.train, statements "
+            "after the epoch loop) — do not edit. -/\nnamespace NessaiVerif.Gen.FlowTrain\nopen NessaiVerif.FlowTrain\n"
+            "def trainTail : List Op := [" + ", ".join("." + o for o in ops) + "]\nend NessaiVerif.Gen.FlowTrain\n")
+    py2lean.write_if_changed(core.LEAN / "NessaiVerif" / "Gen" / "FlowTrain.lean", body)
+    ctx.extra["translated"] = {"FlowModel.train tail": ops}
+
+
 def gen_points(rng, n, d, centre, width):
     """points within the (numerical) support of the flow: Gaussian blobs of random scale around the flow's own sample
     cloud (centre, width = robust location / scale of 512 samples) + boundary stream (centre, a tiny offset, the spline
